@@ -23,5 +23,15 @@ for id in C07 C01 C02; do $E $id rename-types-locals generator/types.go 's/\bsch
 for id in C10 C11 C08; do $E $id rename-support-locals generator/support.go 's/\bjsonb\b/origJSON/g' 's/\bflatjsonb\b/flatJSON/g' 's/\bgenOps\b/planned/g' 's/\broutes\b/taken/g'; done
 for id in C19; do $E $id rename-spec-locals cmd/swagger/commands/generate/spec.go 's/\bb\b/raw/g' 's/\bswspec\b/scanned/g'; done
 for id in C19; do $E $id rename-expand-locals cmd/swagger/commands/expand.go 's/\bdata\b/ordered/g' 's/\bbb\b/rendered/g'; done
+# round 5: locals of the constructs the round-5 rules look at
+$E C04 rename-facade-locals generator/templates/client/facade.gotmpl 's/\bformats\b/registry/g' 's/\bcli\b/api/g' 's/\btransport\b/rt/g'
+for id in C01 C11; do $E $id rename-language-locals generator/language.go 's/\bnm\b/ident/g' 's/\bresult\b/lines/g'; done
+$E C01 rename-clioperation-locals generator/templates/cli/operation.gotmpl 's/\bappCli\b/client/g' 's/\bmsgStr\b/text/g'
+for id in C06 C09; do $E $id rename-security-locals generator/shared.go 's/\bgenScopes\b/described/g' 's/\bisOAuth2\b/oauth/g'; done
+for id in C12 C13 C14; do $E $id rename-definitions-locals cmd/swagger/commands/diff/spec_analyser.go 's/\balreadyReferenced\b/seenRefs/g' 's/\bchildLocation\b/at/g'; done
+for id in C16 C18; do $E $id rename-struct-locals codescan/schema.go 's/\bafld\b/astField/g' 's/\bfld\b/field/g' 's/\bps\b/prop/g' 's/\btagName\b/jsonName/g'; done
+for id in C16 C18; do $E $id rename-imports-locals codescan/application.go 's/\bknown\b/seen/g' 's/\bimportPaths\b/sorted/g'; done
+for id in C04 C07; do $E $id rename-media-locals generator/media.go 's/\bneedsDefault\b/lacking/g' 's/\bmediaFor\b/listFor/g'; done
+$E C18 rename-valueparser-locals codescan/parser.go 's/\bobj\b/object/g' 's/\bslice\b/list/g'
 # re-indentation of template text (generated code is gofmt'ed: whitespace-only change)
 for spec in "C03:generator/templates/server/parameter.gotmpl" "C04:generator/templates/client/parameter.gotmpl" "C04:generator/templates/client/response.gotmpl" "C05:generator/templates/serializers/additionalpropertiesserializer.gotmpl" "C05:generator/templates/serializers/tupleserializer.gotmpl" "C06:generator/templates/server/builder.gotmpl" "C06:generator/templates/server/operation.gotmpl" "C08:generator/templates/server/builder.gotmpl" "C09:generator/templates/server/operation.gotmpl" "C01:generator/templates/server/main.gotmpl" "C02:generator/templates/schemavalidator.gotmpl"; do id=${spec%%:*}; f=${spec#*:}; n=$(basename $f .gotmpl); $E $id reindent-$n $f 's/^  \( *[^ {]\)/\t\1/' 's/^    \( *[^ {]\)/\t\t\1/' 's/ *$//'; done
